@@ -1,22 +1,28 @@
-//! Kani units (DESIGN 4.6). Loop-free harnesses over kani::any(): complete proofs over the stated domain.
-//! `extracted.rs` is regenerated from /repo on every run (expressions copied verbatim from private functions).
+//! Kani units (DESIGN 4.6). Loop-free harness bodies over a value source: under Kani the source is kani::any()
+//! (complete proofs over the stated domain); natively (`replay` binary) it is a list of concrete values, so a Kani
+//! counterexample is re-run against the real code. `extracted.rs` is regenerated from /repo on every run.
 #![allow(dead_code, unused_imports, clippy::all)]
 
-#[cfg(kani)]
-mod extracted;
+pub mod extracted;
 
-#[cfg(kani)]
-mod proofs {
+/// where harness inputs come from
+pub trait Src {
+    fn i32(&mut self) -> i32; fn u32(&mut self) -> u32; fn i64(&mut self) -> i64; fn u16(&mut self) -> u16;
+    fn assume(&mut self, b: bool); fn cover(&mut self, b: bool);
+}
+
+pub mod bodies {
+    use super::Src;
     use cgt_core::{CgtError, TaxPeriod};
     use chrono::{Datelike, Duration, NaiveDate};
 
     /// every date chrono can represent
-    fn any_date() -> NaiveDate {
-        let y: i32 = kani::any();
-        let o: u32 = kani::any();
-        kani::assume(o >= 1 && o <= 366);
+    pub fn any_date<S: Src>(s: &mut S) -> NaiveDate {
+        let y: i32 = s.i32();
+        let o: u32 = s.u32();
+        s.assume(o >= 1 && o <= 366);
         let d = NaiveDate::from_yo_opt(y, o);
-        kani::assume(d.is_some());
+        s.assume(d.is_some());
         d.unwrap()
     }
 
@@ -27,9 +33,8 @@ mod proofs {
     }
 
     // ---------------------------------------------------------------- K-taxyear
-    #[kani::proof]
-    fn k_taxyear_from_date() {
-        let d = any_date();
+    pub fn k_taxyear_from_date<S: Src>(s: &mut S) {
+        let d = any_date(s);
         let expect = expect_year(d);
         let r = TaxPeriod::from_date(d);
         match &r {
@@ -40,59 +45,56 @@ mod proofs {
             }
             Err(_) => assert!(expect < 1900 || expect > 2100),  // C07.from_date.err
         }
-        kani::cover!(r.is_ok());
-        kani::cover!(r.is_err());
+        s.cover(r.is_ok());
+        s.cover(r.is_err());
         std::mem::forget(r);
     }
 
-    #[kani::proof]
-    fn k_taxyear_new_and_bounds() {
-        let y: u16 = kani::any();
+    pub fn k_taxyear_new_and_bounds<S: Src>(s: &mut S) {
+        let y: u16 = s.u16();
         let r = TaxPeriod::new(y);
         match &r {
             Ok(p) => {
                 assert!(y >= 1900 && y <= 2100);
                 assert!(p.start_year() == y);
-                let s = p.start_date(); let e = p.end_date();
-                assert!(s.is_some() && e.is_some());
-                let (s, e) = (s.unwrap(), e.unwrap());
-                assert!(s.year() == y as i32 && s.month() == 4 && s.day() == 6);        // C07.start_date
+                let sd = p.start_date(); let e = p.end_date();
+                assert!(sd.is_some() && e.is_some());
+                let (sd, e) = (sd.unwrap(), e.unwrap());
+                assert!(sd.year() == y as i32 && sd.month() == 4 && sd.day() == 6);        // C07.start_date
                 assert!(e.year() == y as i32 + 1 && e.month() == 4 && e.day() == 5);    // C07.end_date
             }
             Err(_) => assert!(y < 1900 || y > 2100),
         }
-        kani::cover!(r.is_ok());
+        s.cover(r.is_ok());
         std::mem::forget(r);
     }
 
     /// a date lies in [start_date, end_date] of exactly its own tax year, and the day after the end is the next year
-    #[kani::proof]
-    fn k_taxyear_window() {
-        let d = any_date();
+    pub fn k_taxyear_window<S: Src>(s: &mut S) {
+        let d = any_date(s);
         let r = TaxPeriod::from_date(d);
         if let Ok(p) = &r {
-            let s = p.start_date().unwrap(); let e = p.end_date().unwrap();
-            assert!(s <= d && d <= e);                                       // C07.window
+            let sd = p.start_date().unwrap(); let e = p.end_date().unwrap();
+            assert!(sd <= d && d <= e);                                       // C07.window
             let next = e.succ_opt().unwrap();
             let rn = TaxPeriod::from_date(next);
             if let Ok(pn) = &rn { assert!(pn.start_year() == p.start_year() + 1); } else { assert!(p.start_year() == 2100); }
             std::mem::forget(rn);
-            let prev = s.pred_opt().unwrap();
+            let prev = sd.pred_opt().unwrap();
             let rp = TaxPeriod::from_date(prev);
             if let Ok(pp) = &rp { assert!(pp.start_year() + 1 == p.start_year()); } else { assert!(p.start_year() == 1900); }
             std::mem::forget(rp);
         }
-        kani::cover!(r.is_ok());
+        s.cover(r.is_ok());
         std::mem::forget(r);
     }
 
     // ---------------------------------------------------------------- K-filter (single-year window of build_tax_year_summary)
-    #[kani::proof]
-    fn k_filter_window_eq_from_date() {
-        let d = any_date();
-        let y: i32 = kani::any();
-        kani::assume(y < i32::MAX);   // `tax_year_start + 1` (overflow is a C15 obligation of the Verus unit)
-        let w = super::extracted::year_window(y, d);
+    pub fn k_filter_window_eq_from_date<S: Src>(s: &mut S) {
+        let d = any_date(s);
+        let y: i32 = s.i32();
+        s.assume(y < i32::MAX);   // `tax_year_start + 1` (overflow is a C15 obligation of the Verus unit)
+        let w = crate::extracted::year_window(y, d);
         let r = TaxPeriod::from_date(d);
         match (&w, &r) {
             (Ok(inside), Ok(p)) => {
@@ -102,47 +104,43 @@ mod proofs {
             (Ok(inside), Err(_)) => { if y >= 1900 && y <= 2100 { assert!(!*inside); } }          // C07.filter_eq.out_of_range
             _ => {}
         }
-        kani::cover!(matches!(w, Ok(true)));
-        kani::cover!(matches!(w, Ok(false)));
+        s.cover(matches!(w, Ok(true)));
+        s.cover(matches!(w, Ok(false)));
         std::mem::forget((w, r));
     }
 
     // ---------------------------------------------------------------- K-explain (MCP explain_matching year derivation)
-    #[kani::proof]
-    fn k_explain_year_eq_from_date() {
-        let date = any_date();
-        let year: i32 = super::extracted::explain_year(date);
+    pub fn k_explain_year_eq_from_date<S: Src>(s: &mut S) {
+        let date = any_date(s);
+        let year: i32 = crate::extracted::explain_year(date);
         let r = TaxPeriod::from_date(date);
         if let Ok(p) = &r { assert!(p.start_year() as i32 == year); }       // C07.explain_eq
         assert!(year == expect_year(date));
-        kani::cover!(r.is_ok());
+        s.cover(r.is_ok());
         std::mem::forget(r);
     }
 
     // ---------------------------------------------------------------- K-chrono (A-date axioms of shim/date.rs on the real chrono)
     /// ax_ymd + from_ymd_opt contract: (year, month, day) identify the date
-    #[kani::proof]
-    fn k_chrono_ymd_roundtrip() {
-        let d = any_date();
+    pub fn k_chrono_ymd_roundtrip<S: Src>(s: &mut S) {
+        let d = any_date(s);
         let (y, m, dd) = (d.year(), d.month(), d.day());
         assert!(m >= 1 && m <= 12 && dd >= 1 && dd <= 31);
         assert!(y >= -262143 && y <= 262142);
         assert!(NaiveDate::from_ymd_opt(y, m, dd) == Some(d));
     }
     /// ax_apr: 5 and 6 April exist in every year and are consecutive
-    #[kani::proof]
-    fn k_chrono_april() {
-        let y: i32 = kani::any();
-        kani::assume(y >= -262143 && y <= 262142);
+    pub fn k_chrono_april<S: Src>(s: &mut S) {
+        let y: i32 = s.i32();
+        s.assume(y >= -262143 && y <= 262142);
         let a = NaiveDate::from_ymd_opt(y, 4, 5); let b = NaiveDate::from_ymd_opt(y, 4, 6);
         assert!(a.is_some() && b.is_some());
         assert!((b.unwrap() - a.unwrap()).num_days() == 1);
         assert!(a.unwrap().succ_opt() == b);
     }
     /// ax_order: date order is lexicographic order on (y, m, d); subtraction is consistent with the order
-    #[kani::proof]
-    fn k_chrono_order() {
-        let a = any_date(); let b = any_date();
+    pub fn k_chrono_order<S: Src>(s: &mut S) {
+        let a = any_date(s); let b = any_date(s);
         let ka = (a.year(), a.month(), a.day()); let kb = (b.year(), b.month(), b.day());
         assert!((a < b) == (ka < kb));
         assert!((a == b) == (ka == kb));
@@ -150,25 +148,22 @@ mod proofs {
         assert!((n < 0) == (a < b) && (n == 0) == (a == b));
     }
     /// day numbers: succ is +1 day
-    #[kani::proof]
-    fn k_chrono_succ() {
-        let a = any_date();
+    pub fn k_chrono_succ<S: Src>(s: &mut S) {
+        let a = any_date(s);
         if let Some(n) = a.succ_opt() { assert!((n - a).num_days() == 1); assert!(n > a); }
     }
     /// Sub/num_days is the difference of day numbers (num_days_from_ce): the model `NaiveDate ~ int` of shim/date.rs.
     /// Two symbolic dates make this query hard for CBMC, so the year range is bounded here (labelled bounded, not counted as proved).
-    #[kani::proof]
-    fn k_chrono_sub_is_day_difference_bounded() {
-        let a = any_date(); let b = any_date();
-        kani::assume(a.year() >= 1890 && a.year() <= 2110 && b.year() >= 1890 && b.year() <= 2110);
+    pub fn k_chrono_sub_is_day_difference_bounded<S: Src>(s: &mut S) {
+        let a = any_date(s); let b = any_date(s);
+        s.assume(a.year() >= 1890 && a.year() <= 2110 && b.year() >= 1890 && b.year() <= 2110);
         assert!((a - b).num_days() == a.num_days_from_ce() as i64 - b.num_days_from_ce() as i64);
     }
     /// C19.day_arith: checked_sub_signed(days(k)) is the date k days earlier (k = 1..=7), whatever month/year end lies between
-    #[kani::proof]
-    fn k_chrono_sub_days() {
-        let a = any_date();
-        let k: i64 = kani::any();
-        kani::assume(k >= 1 && k <= 7);
+    pub fn k_chrono_sub_days<S: Src>(s: &mut S) {
+        let a = any_date(s);
+        let k: i64 = s.i64();
+        s.assume(k >= 1 && k <= 7);
         match a.checked_sub_signed(Duration::days(k)) {
             Some(e) => { assert!((a - e).num_days() == k); assert!(e < a); }
             None => { assert!(a.year() == -262143); }
@@ -176,27 +171,79 @@ mod proofs {
     }
     /// C01.window_edges (decision logic, complete over every i64 day difference): with the two tests exactly as written in
     /// match_bed_and_breakfast, a purchase is taken iff 1 <= days <= 30: day 30 is in, day 31 and day 0 (or earlier) are out.
-    #[kani::proof]
-    fn k_window_logic() {
-        let n: i64 = kani::any();
-        let accepted = !super::extracted::bnb_not_after(n) && !super::extracted::bnb_beyond_window(n);
+    pub fn k_window_logic<S: Src>(s: &mut S) {
+        let n: i64 = s.i64();
+        let accepted = !crate::extracted::bnb_not_after(n) && !crate::extracted::bnb_beyond_window(n);
         assert!(accepted == (n >= 1 && n <= 30));
         if n == 30 { assert!(accepted); }
         if n == 31 || n <= 0 { assert!(!accepted); }
         // the window test may stop the scan (break) only beyond the window, never inside it
-        if super::extracted::bnb_beyond_window(n) { assert!(n > 30); }
-        kani::cover!(accepted);
-        kani::cover!(!accepted);
+        if crate::extracted::bnb_beyond_window(n) { assert!(n > 30); }
+        s.cover(accepted);
+        s.cover(!accepted);
     }
     /// C01.window_edges (calendar part): the day difference computed as in match_bed_and_breakfast is k for the date k days after D,
     /// for every D and every k in -3..=35 (so D+30, D+31, D and month/year ends are all covered).
-    #[kani::proof]
-    fn k_window_days_diff() {
-        let d = any_date();
-        let k: i64 = kani::any();
-        kani::assume(k >= -3 && k <= 35);
+    pub fn k_window_days_diff<S: Src>(s: &mut S) {
+        let d = any_date(s);
+        let k: i64 = s.i64();
+        s.assume(k >= -3 && k <= 35);
         if let Some(x) = d.checked_add_signed(Duration::days(k)) {
-            assert!(super::extracted::bnb_days_diff(x, d) == k);
+            assert!(crate::extracted::bnb_days_diff(x, d) == k);
         }
     }
+}
+
+/// concrete value source for replay
+pub struct Concrete { pub vals: Vec<i128>, pub pos: usize, pub assumption_failed: bool }
+impl Concrete { fn next(&mut self) -> i128 { let v = self.vals.get(self.pos).copied().unwrap_or(0); self.pos += 1; v } }
+impl Src for Concrete {
+    fn i32(&mut self) -> i32 { self.next() as i32 } fn u32(&mut self) -> u32 { self.next() as u32 }
+    fn i64(&mut self) -> i64 { self.next() as i64 } fn u16(&mut self) -> u16 { self.next() as u16 }
+    fn assume(&mut self, b: bool) { if !b { self.assumption_failed = true; panic!("ASSUMPTION-VIOLATED"); } }
+    fn cover(&mut self, _b: bool) {}
+}
+pub const HARNESSES: &[&str] = &["k_taxyear_from_date", "k_taxyear_new_and_bounds", "k_taxyear_window", "k_filter_window_eq_from_date", "k_explain_year_eq_from_date", "k_chrono_ymd_roundtrip", "k_chrono_april", "k_chrono_order", "k_chrono_succ", "k_chrono_sub_is_day_difference_bounded", "k_chrono_sub_days", "k_window_logic", "k_window_days_diff"];
+pub fn run_concrete(name: &str, vals: Vec<i128>) {
+    let mut c = Concrete { vals, pos: 0, assumption_failed: false };
+    match name {
+        "k_taxyear_from_date" => bodies::k_taxyear_from_date(&mut c),
+        "k_taxyear_new_and_bounds" => bodies::k_taxyear_new_and_bounds(&mut c),
+        "k_taxyear_window" => bodies::k_taxyear_window(&mut c),
+        "k_filter_window_eq_from_date" => bodies::k_filter_window_eq_from_date(&mut c),
+        "k_explain_year_eq_from_date" => bodies::k_explain_year_eq_from_date(&mut c),
+        "k_chrono_ymd_roundtrip" => bodies::k_chrono_ymd_roundtrip(&mut c),
+        "k_chrono_april" => bodies::k_chrono_april(&mut c),
+        "k_chrono_order" => bodies::k_chrono_order(&mut c),
+        "k_chrono_succ" => bodies::k_chrono_succ(&mut c),
+        "k_chrono_sub_is_day_difference_bounded" => bodies::k_chrono_sub_is_day_difference_bounded(&mut c),
+        "k_chrono_sub_days" => bodies::k_chrono_sub_days(&mut c),
+        "k_window_logic" => bodies::k_window_logic(&mut c),
+        "k_window_days_diff" => bodies::k_window_days_diff(&mut c),
+        _ => panic!("unknown harness"),
+    }
+}
+
+#[cfg(kani)]
+mod proofs {
+    use super::Src;
+    struct K;
+    impl Src for K {
+        fn i32(&mut self) -> i32 { kani::any() } fn u32(&mut self) -> u32 { kani::any() }
+        fn i64(&mut self) -> i64 { kani::any() } fn u16(&mut self) -> u16 { kani::any() }
+        fn assume(&mut self, b: bool) { kani::assume(b) } fn cover(&mut self, b: bool) { kani::cover!(b) }
+    }
+    #[kani::proof] fn k_taxyear_from_date() { super::bodies::k_taxyear_from_date(&mut K) }
+    #[kani::proof] fn k_taxyear_new_and_bounds() { super::bodies::k_taxyear_new_and_bounds(&mut K) }
+    #[kani::proof] fn k_taxyear_window() { super::bodies::k_taxyear_window(&mut K) }
+    #[kani::proof] fn k_filter_window_eq_from_date() { super::bodies::k_filter_window_eq_from_date(&mut K) }
+    #[kani::proof] fn k_explain_year_eq_from_date() { super::bodies::k_explain_year_eq_from_date(&mut K) }
+    #[kani::proof] fn k_chrono_ymd_roundtrip() { super::bodies::k_chrono_ymd_roundtrip(&mut K) }
+    #[kani::proof] fn k_chrono_april() { super::bodies::k_chrono_april(&mut K) }
+    #[kani::proof] fn k_chrono_order() { super::bodies::k_chrono_order(&mut K) }
+    #[kani::proof] fn k_chrono_succ() { super::bodies::k_chrono_succ(&mut K) }
+    #[kani::proof] fn k_chrono_sub_is_day_difference_bounded() { super::bodies::k_chrono_sub_is_day_difference_bounded(&mut K) }
+    #[kani::proof] fn k_chrono_sub_days() { super::bodies::k_chrono_sub_days(&mut K) }
+    #[kani::proof] fn k_window_logic() { super::bodies::k_window_logic(&mut K) }
+    #[kani::proof] fn k_window_days_diff() { super::bodies::k_window_days_diff(&mut K) }
 }
